@@ -684,7 +684,9 @@ def cmdScale : P String := do
   let bad ← nat
   let first ← tok
   let feats := s!"nt=1 scenario={scen} n={if scen == "hugeframe" || scen == "overlap" then n / 1048576 else n}"
-  let prop := if scen == "hugeframe" || scen == "overlap" then "C03" else if scen == "closetwice" then "C02" else "C01"
+  let prop := if scen == "hugeframe" || scen == "overlap" then "C03" else if scen == "closetwice" then "C02"
+    else if scen == "resend" then "C17" else if scen == "staleclose" then "C18" else if scen == "reroute" then "C04"
+    else if scen == "staleflags" then "C08" else "C01"
   if bad != 0 then
     return s!"DIFF {prop} {scen}-at-scale-{first} bad={bad} {feats}"
   return s!"OK {feats}"
